@@ -239,6 +239,9 @@ func baseObj(r *rng, cnr cid.ID, owner user.ID, payload []byte) *object.Object {
 // scenarios of the C08 generator).
 var forceFirst bool
 
+// forceExp (with forceFirst): object 0 expires after epoch 1 and the first lock never expires.
+var forceExp bool
+
 func newUniverse(r *rng, nReg, nEC, nLock, nTS int, maxEpoch int) *universe {
 	u := &universe{byID: map[oid.ID]int{}}
 	copy(u.cnr[:], r.bytes(32))
@@ -253,8 +256,14 @@ func newUniverse(r *rng, nReg, nEC, nLock, nTS int, maxEpoch int) *universe {
 	for i := 0; i < nReg; i++ {
 		o := baseObj(r, u.cnr, owner, r.bytes(1+r.intn(40)))
 		x := &uobj{Kind: kReg, Target: -1, Exp: -1}
-		if r.coin(1, 3) {
+		expires := r.coin(1, 3)
+		if expires {
 			x.Exp = int64(1 + r.intn(maxEpoch))
+		}
+		if forceFirst && forceExp && i == 0 {
+			expires, x.Exp = true, 1
+		}
+		if expires {
 			addAttr(o, object.AttributeExpirationEpoch, strconv.FormatInt(x.Exp, 10))
 		}
 		x.obj = o
@@ -277,8 +286,14 @@ func newUniverse(r *rng, nReg, nEC, nLock, nTS int, maxEpoch int) *universe {
 	for i := 0; i < nLock; i++ {
 		o := baseObj(r, u.cnr, owner, nil)
 		x := &uobj{Kind: kLock, Exp: -1}
-		if r.coin(2, 3) {
+		lexp := r.coin(2, 3)
+		if lexp {
 			x.Exp = int64(1 + r.intn(maxEpoch))
+		}
+		if forceFirst && forceExp && i == 0 {
+			lexp, x.Exp = false, -1
+		}
+		if lexp {
 			addAttr(o, object.AttributeExpirationEpoch, strconv.FormatInt(x.Exp, 10))
 		}
 		x.Target = r.intn(nData)
